@@ -388,6 +388,32 @@ theorem close_returns_errclosing (t : Table) (h : Inv t) (i : Nat) (s : Sub) (hs
   have h0 := (h.closes s hmem).1 ha
   exact ⟨⟨s.remove, by simp [step, upd, hs, ha], by simp [Sub.remove], by simp [Sub.remove, h0]⟩, fun _ => rfl, fun _ => rfl⟩
 
+/-- **receive_exit_unregisters.** Whatever way a Receive call ends — the SUBSCRIBE command failed
+    (error reply, cancelled context), the channel was closed, the context ended — and whatever
+    happened on the connection meanwhile, no subscription registered by that call is left active in
+    the table afterwards. So nothing can be sent into a channel nobody reads any more
+    (`exactly_once_in_order`: an inactive subscription receives nothing), the reader cannot block
+    on it, and its OnSubscription hook is not called again. -/
+theorem receive_exit_unregisters (t : Table) (h : Inv t) (chans : List String) (fn : Bool) (during : List Op) (e : End) :
+    ∀ s ∈ (receiveCall t chans fn during e).subs, s.id = t.cnt + 1 → s.active = false := by
+  intro s hs hid
+  have hinv : Inv (run (step t (.subscribe chans fn)) during) := inv_run _ (inv_step t h _) during
+  generalize run (step t (.subscribe chans fn)) during = t2 at hs hinv
+  simp only [receiveCall, step] at hs
+  split at hs
+  · simp only [upd, List.mem_map] at hs
+    obtain ⟨s0, hs0, rfl⟩ := hs
+    by_cases ha : s0.active = true
+    · have hid0 : s0.id = t.cnt + 1 := by
+        split at hid <;> simpa [Sub.remove] using hid
+      simp [ha, hid0, Sub.remove]
+    · simp [ha] at hid ⊢
+      simpa using ha
+  · rename_i hlive
+    cases ha : s.active
+    · rfl
+    · exact absurd (hinv.live s hs ha).1 hlive
+
 /-! ### the channel returned by SetPubSubHooks -/
 
 structure HookInv (s : HookSt) : Prop where
